@@ -3,6 +3,7 @@ from engine import query as Q
 from engine.terms import show, subterms
 from engine.guards import Atom, Walker, field_path, chain, Inliner
 from .c07 import norm_arith
+from . import common
 
 NS = "zksync_consensus_network::noise::stream"
 BUF = "zksync_consensus_network::noise::bytes::Buffer"
@@ -198,10 +199,14 @@ def rule_failures(ctx):
     g = fn1(ctx, "::poll_read_frame")
     Tg = ctx.T(g)
 
+    def nread(t):
+        # the byte count may arrive through the return place of an extracted helper: Ready(Ok(buf.filled().len()))
+        return any(x[0] == "call" and x[1].endswith("ReadBuf::filled") for v in common.value_terms(g, Tg, t) for x in subterms(v))
+
     def mz(a, b):
-        if b == ("const", 0) and any(x[0] == "call" and x[1].endswith("ReadBuf::filled") for x in subterms(a)):
+        if b == ("const", 0) and nread(a):
             return 1
-        if a == ("const", 0) and any(x[0] == "call" and x[1].endswith("ReadBuf::filled") for x in subterms(b)):
+        if a == ("const", 0) and nread(b):
             return -1
         return 0
     W = Walker(ctx, g, [Atom("read==0", "cmp", mz, ["=", "!="])])
@@ -312,7 +317,16 @@ def rule_buffer(ctx):
     T = ctx.T(f)
     MIN = ("std::cmp::min", "std::cmp::Ord::min")
     mins = [T.args_of(c) for c in T.calls() if c["q"] in MIN]
-    okm = bool(mins) and all({x[0][1] if x[0][0] == "call" else None, x[1][1] if x[1][0] == "call" else None} == {BUF + "::capacity", "[T]::len"} for x in mins)
+    def min_operand(x):
+        if x[0] == "call" and x[1] == BUF + "::capacity":
+            return "capacity"
+        if x[0] == "call" and x[1] == "[T]::len" and x[2]:
+            # the free space as a slice (`as_mut_capacity()` = inner[end..]) has exactly capacity() elements
+            if x[2][0][0] == "call" and x[2][0][1] == BUF + "::as_mut_capacity":
+                return "capacity"
+            return "len"
+        return None
+    okm = bool(mins) and all({min_operand(x[0]), min_operand(x[1])} == {"capacity", "len"} for x in mins)
     oke = set(a) == {"end"} and all(x[0] == "bin" and x[1] == "Add" and selff("end")(x[2]) and x[3][0] == "call" and x[3][1] in MIN for x in a["end"])
     rt = inl.ret_term(f)
     okr = rt is not None and rt[0] == "call" and rt[1] in MIN
